@@ -82,6 +82,8 @@ def report(pid, tier, seed, modname, obs, results, bres, meta, t0):
     kf = [f for f in known.get('findings', []) if f['property'] == pid]
     os.makedirs(os.path.join(ROOT, 'evidence'), exist_ok=True)
     rdir = os.path.join(ROOT, 'replays', pid)
+    if os.environ.get('PYPOSE_REPO', '/repo') == '/repo':
+        import shutil; shutil.rmtree(rdir, ignore_errors=True)      # stale replays of earlier runs are not evidence of this run
     n_ob = n_dis = n_known_ob = 0
     violations = []; known_hits = []; undecided = []; crashes = []
     canaries = dict(total=0, refuted=0)
